@@ -192,7 +192,7 @@ def run_task(ctx, lane, **kw):
                 ctx.nt(f)
             ctx.sample({"lane": "fixture", "fixture": kw["name"], "formula": f}, every=211)
         # one-character mutations of real formulas (delete / duplicate / swap / replace)
-        flist = sorted(forms)
+        flist = sorted(f for f in forms if f)
         if flist:
             from hypothesis import strategies as st
 
